@@ -40,6 +40,8 @@ type z =
 
 module Nat :
  sig
+  val sub : nat -> nat -> nat
+
   val eqb : nat -> nat -> bool
 
   val leb : nat -> nat -> bool
@@ -49,6 +51,12 @@ module Nat :
   val max : nat -> nat -> nat
 
   val min : nat -> nat -> nat
+
+  val divmod : nat -> nat -> nat -> nat -> nat * nat
+
+  val div : nat -> nat -> nat
+
+  val modulo : nat -> nat -> nat
  end
 
 module Pos :
@@ -172,6 +180,8 @@ module Z :
 
   val min : z -> z -> z
 
+  val to_nat : z -> nat
+
   val to_N : z -> n
 
   val of_nat : nat -> z
@@ -232,6 +242,8 @@ type exn =
 | TypeError
 | AssertionError
 | AttributeError
+| ZeroDivisionError
+| RecursionError
 | OutOfFuel
 
 type 'a res =
@@ -277,6 +289,8 @@ val upd : 'a1 list -> nat -> ('a1 -> 'a1) -> 'a1 list
 val insert_at : 'a1 list -> nat -> 'a1 -> 'a1 list
 
 val assoc : str -> (str * 'a1) list -> 'a1 option
+
+val assocZ : z -> (z * 'a1) list -> 'a1 option
 
 val index_of : str -> str list -> nat -> nat option
 
@@ -590,3 +604,39 @@ val take_body : str -> (str * str) option
 val wf_parse_fuel : nat -> str -> item list option
 
 val wf_parse : str -> item list option
+
+val nop : str
+
+type encoding =
+| Label of z list
+| OneHot of z list list
+| Both of z list * z list list
+
+val nops : nat -> str
+
+val encode_tokens : (str * z) list -> str list -> bool -> z list res
+
+val one_hot_row : nat -> z -> z list res
+
+val one_hot_rows : nat -> z list -> z list list res
+
+val selfies_to_encoding : str -> (str * z) list -> z -> str -> encoding res
+
+val index_of_one : z list -> z -> z res
+
+val lookup_all : (z * str) list -> z list -> str list res
+
+val rows_to_ints : z list list -> z list res
+
+type enc_input =
+| InLabel of z list
+| InOneHot of z list list
+
+val encoding_to_selfies : enc_input -> (z * str) list -> str -> str res
+
+val batch_selfies_to_flat_hot :
+  str list -> (str * z) list -> z -> z list list res
+
+val chunks : nat -> nat -> z list -> z list list
+
+val batch_flat_hot_to_selfies : z list list -> (z * str) list -> str list res
